@@ -214,27 +214,11 @@ func (p *Parser) parseUpdateStatement() (ast.Statement, error) {
 		}
 		p.advance() // Consume =
 
-		// Parse value expression
-		var expr ast.Expression
-		if p.isStringLiteral() {
-			expr = &ast.LiteralValue{Value: p.currentToken.Literal, Type: "string"}
-			p.advance()
-		} else if p.isNumericLiteral() {
-			litType := "int"
-			if strings.ContainsAny(p.currentToken.Literal, ".eE") {
-				litType = "float"
-			}
-			expr = &ast.LiteralValue{Value: p.currentToken.Literal, Type: litType}
-			p.advance()
-		} else if p.isBooleanLiteral() {
-			expr = &ast.LiteralValue{Value: p.currentToken.Literal, Type: "bool"}
-			p.advance()
-		} else {
-			var err error
-			expr, err = p.parseExpression()
-			if err != nil {
-				return nil, err
-			}
+		// Parse value expression. Literals are ordinary expressions: a value that starts with a
+		// literal may continue with an operator (SET a = 1 + b, SET s = 'x' || t).
+		expr, err := p.parseExpression()
+		if err != nil {
+			return nil, err
 		}
 
 		// Create update expression
